@@ -72,4 +72,16 @@ MODULES = [
              "raises": True, "fuel": "S (S (Z.to_nat (Z.log2 (Z.abs dim))))"},
         ],
     },
+    {
+        "out": "Gen/TilesGen.v",
+        "props": ["C04"],
+        "items": [
+            {"file": ROI, "py": "Tiles.__init__", "g": "g_tiles_count", "params": [("N", "Z"), ("n", "Z")], "ret": "Z",
+             "genexp": {"index": 0, "count": 1, "vars": [("N", "Z"), ("n", "Z")]}},
+            {"file": ROI, "py": "Tiles.__getitem__._slice", "g": "g_tiles_slice",
+             "params": [("i", "NS"), ("N", "Z"), ("n", "Z")], "ret": "NS", "raises": True},
+            {"file": ROI, "py": "Tiles.tile_shape._sz", "g": "g_tile_sz",
+             "params": [("i", "Z"), ("n", "Z"), ("tile_sz", "Z"), ("total_sz", "Z")], "ret": "Z", "raises": True},
+        ],
+    },
 ]
